@@ -988,8 +988,10 @@ int RegularExpression::getOptionValue(const XMLCh ch) {
 struct RE_RuntimeContext {
     const Op    *op_;
     XMLSize_t   offs_;
+    int         prevClosureOffs_;
 
-    RE_RuntimeContext(const Op *op, XMLSize_t offs) : op_(op), offs_(offs) { }
+    RE_RuntimeContext(const Op *op, XMLSize_t offs, int prevClosureOffs = -1)
+        : op_(op), offs_(offs), prevClosureOffs_(prevClosureOffs) { }
 };
 
 int RegularExpression::match(Context* const context, const Op* const operations,
@@ -1058,14 +1060,18 @@ int RegularExpression::match(Context* const context, const Op* const operations,
                     XMLInt32 id = tmpOp->getData();
                     // if id is not -1, it's a closure with a child token having a minumum length,
                     // where id is the index of the fOffsets array where its status is stored
+                    // fOffsets[id] is the offset at which the innermost iteration of this
+                    // closure that is still being matched started; whoever changes it puts
+                    // the previous value back when that iteration is done, so that an outer
+                    // iteration is still recognized after backtracking out of an inner one
+                    int prevOffset = -1;
                     if (id >= 0) {
-                        int prevOffset = context->fOffsets[id];
+                        prevOffset = context->fOffsets[id];
                         if (prevOffset < 0 || prevOffset != (int)offset) {
                             context->fOffsets[id] = (int)offset;
                         }
                         else {
                             // the status didn't change, we haven't found other copies; move on to the next match
-                            context->fOffsets[id] = -1;
                             tmpOp = tmpOp->getNextOp();
                             break;
                         }
@@ -1081,8 +1087,8 @@ int RegularExpression::match(Context* const context, const Op* const operations,
                     }
 
                     if (id >= 0) {
-                        // loop has ended, reset the status for this closure
-                        context->fOffsets[id] = -1;
+                        // loop has ended, restore the status for this closure
+                        context->fOffsets[id] = prevOffset;
                     }
                     tmpOp = tmpOp->getNextOp();
                 }
@@ -1111,14 +1117,18 @@ int RegularExpression::match(Context* const context, const Op* const operations,
                     XMLInt32 id = tmpOp->getData();
                     // if id is not -1, it's a closure with a child token having a minumum length,
                     // where id is the index of the fOffsets array where its status is stored
+                    // fOffsets[id] is the offset at which the innermost iteration of this
+                    // closure that is still being matched started; whoever changes it puts
+                    // the previous value back when that iteration is done, so that an outer
+                    // iteration is still recognized after backtracking out of an inner one
+                    int prevOffset = -1;
                     if (id >= 0) {
-                        int prevOffset = context->fOffsets[id];
+                        prevOffset = context->fOffsets[id];
                         if (prevOffset < 0 || prevOffset != (int)offset) {
                             context->fOffsets[id] = (int)offset;
                         }
                         else {
                             // the status didn't change, we haven't found other copies; move on to the next match
-                            context->fOffsets[id] = -1;
                             tmpOp = tmpOp->getNextOp();
                             break;
                         }
@@ -1126,14 +1136,14 @@ int RegularExpression::match(Context* const context, const Op* const operations,
 
                     if(opStack!=NULL)
                     {
-                        opStack->push(RE_RuntimeContext(tmpOp, offset));
+                        opStack->push(RE_RuntimeContext(tmpOp, offset, prevOffset));
                         tmpOp = tmpOp->getChild();
                     }
                     else
                     {
                         int ret = match(context, tmpOp->getChild(), offset);
                         if (id >= 0) {
-                            context->fOffsets[id] = -1;
+                            context->fOffsets[id] = prevOffset;
                         }
                         if (ret >= 0)
                             doReturn = ret;
@@ -1189,8 +1199,8 @@ int RegularExpression::match(Context* const context, const Op* const operations,
             if (tmpOp->getOpType() == Op::O_CLOSURE) {
                 XMLInt32 id = tmpOp->getData();
                 if (id >= 0) {
-                    // loop has ended, reset the status for this closure
-                    context->fOffsets[id] = -1;
+                    // loop has ended, restore the status for this closure
+                    context->fOffsets[id] = ctx.prevClosureOffs_;
                 }
             }
             if (tmpOp->getOpType() == Op::O_CLOSURE || tmpOp->getOpType() == Op::O_QUESTION) {
